@@ -1076,6 +1076,68 @@ pub fn scale(out_dir: &str, thorough: bool, seed: u64) -> i32 {
             }
         }
     }
+    // ---- texts around 2^24 bytes (the width a length field could be cut to) : every way of building one, then single calls
+    for &len in &[(1usize << 24) - 1, 1 << 24, (1 << 24) + 1, (1 << 25) + 3] {
+        let text = "h".repeat(len);
+        let leaked: &'static str = Box::leak(text.clone().into_boxed_str());
+        for how in ["from_str", "static", "with_capacity", "clone", "collect"] {
+            let mut keep: Option<LeanString> = None;
+            let mut s = match how {
+                "from_str" => LeanString::from(text.as_str()),
+                "static" => LeanString::from_static_str(leaked),
+                "with_capacity" => {
+                    let mut s = LeanString::with_capacity(len);
+                    s.push_str(&text[..len - 1]);
+                    s.push('h');
+                    s
+                }
+                "clone" => {
+                    let a = LeanString::from(text.as_str());
+                    let b = a.clone();
+                    keep = Some(a);
+                    b
+                }
+                _ => [&text[..len / 2], &text[len / 2..]].into_iter().collect(),
+            };
+            let mut std = text.clone();
+            let built = s.len() == std.len() && !s.is_empty() && s.as_bytes() == std.as_bytes();
+            recs.push(json!({"k":"bigop","op":format!("huge-build:{how}"),"teq":built,"len2":s.len(),"explen":std.len(),"cap2":s.capacity(),"resok":true,"fits":false,"dA":0,"dR":0,"sameptr":true,"others":true}));
+            for step in ["push", "push_str", "pop", "insert", "remove", "truncate", "clear"] {
+                let resok = match step {
+                    "push" => {
+                        s.push('\u{20ac}');
+                        std.push('\u{20ac}');
+                        true
+                    }
+                    "push_str" => {
+                        s.push_str("tail");
+                        std.push_str("tail");
+                        true
+                    }
+                    "pop" => s.pop() == std.pop(),
+                    "insert" => {
+                        s.insert_str(len - 3, "<>");
+                        std.insert_str(len - 3, "<>");
+                        true
+                    }
+                    "remove" => s.remove(len - 3) == std.remove(len - 3),
+                    "truncate" => {
+                        s.truncate(len - 1);
+                        std.truncate(len - 1);
+                        true
+                    }
+                    _ => {
+                        s.clear();
+                        std.clear();
+                        s.is_empty()
+                    }
+                };
+                let others = keep.as_ref().map(|k| k.len() == len && k.as_bytes() == text.as_bytes()).unwrap_or(true);
+                recs.push(json!({"k":"bigop","op":format!("huge-{step}:{how}"),"teq":s.as_bytes() == std.as_bytes(),"len2":s.len(),"explen":std.len(),"cap2":s.capacity(),"resok":resok,
+                    "fits":false,"dA":0,"dR":0,"sameptr":true,"others":others}));
+            }
+        }
+    }
     // ---- long static texts (C10 at scale): borrowed, cloned, shortened without a copy; the first write moves the handle
     for &len in &[17usize, 100, 4095, 4096, 4097, 100_000, 1 << 20] {
         let pat = "st\u{e9}";
